@@ -141,6 +141,10 @@ func (c *wsConn) nextWriter(cb func(io.Writer)) {
 	wcl, err := c.conn.NextWriter(websocket.TextMessage)
 	if err != nil {
 		log.Error("handle me:", err)
+		// The callback must still run: callers (the lazy response writer) wait for
+		// it, and would otherwise block forever once the connection is unwritable.
+		// Whatever they write is discarded.
+		cb(io.Discard)
 		return
 	}
 
